@@ -457,7 +457,7 @@ impl Monitor for C15 {
             let sender = step.op.sender().unwrap_or_default().to_string();
             let fm_owner = c.w.ownership(&c.w.a.fm).owner.map(|o| o.to_string()).unwrap_or_default();
             for f0 in pre.farms.iter() {
-                if post.farm(&f0.identifier).is_none() && f0.owner.as_str() != sender && fm_owner != sender && super::c09::farm_expired(&c.w, f0, now) == Some(false) {
+                if post.farm(&f0.identifier).is_none() && f0.owner.as_str() != sender && fm_owner != sender && super::c09::farm_expired(&c.w, f0, now) != Some(true) {
                     return Err(viol(
                         "C15.live_farm_closed_by_other",
                         format!("farm {} of {} (not expired) was closed by {} from {}", f0.identifier, c.w.a.name(f0.owner.as_str()), step.op.kind(), c.w.a.name(&sender)),
